@@ -9,7 +9,7 @@ from props import C06 as base
 PROP = "C08"
 META = {
     "technique": "Coq proof: the pipe's global inductive invariant (ownership of every slot as multiset accounting + ghost leases held by the pinned front slice or a parked slice) preserved by every operation of the model; tie: differential execution of the real linkedBuffer pair against the model (incl. the model's lease check) + an oracle that re-compares every handed-out slice after every later op",
-    "level_text": "Theorem C08: in every state reachable by ANY op sequence (writes, flushes, reads of any size, releases, and allocations / overwrites / frees by other owners interleaved arbitrarily) every live lease's slot is in no free list, is not a slice of the send buffer, is held by no other owner, and denotes exactly the bytes handed out; C08_duplex: the same for both directions of a stream pair incl. Stream.ReleaseReadAndReuse with its swap; C08_release_frees: after ReleasePreviousRead every parked slot is free again; C08_lease_only_fast_*: only fast-path ReadBytes/Peek results alias shared memory, every slow-path result is a copy. Results that came through the socket fallback (heap slices) are covered by the level (ii) family: real session pairs, results kept while later events arrive on the connection.",
+    "level_text": "Theorem C08: in every state reachable by ANY op sequence (writes, flushes, reads of any size, releases, and allocations / overwrites / frees by other owners interleaved arbitrarily) every live lease's slot is in no free list, is not a slice of the send buffer, is held by no other owner, and denotes exactly the bytes handed out; C08_duplex: the same for both directions of a stream pair incl. Stream.ReleaseReadAndReuse with its swap; C08_lease_survives_peer_close: the peer's half close ends no lease (sweep condition of the callback goroutine translated into Gen/SwitchC08.v); callback-mode family on real sessions (results kept past OnData while the peer closes and another owner overwrites every free slot); C08_release_frees: after ReleasePreviousRead every parked slot is free again; C08_lease_only_fast_*: only fast-path ReadBytes/Peek results alias shared memory, every slow-path result is a copy. Results that came through the socket fallback (heap slices) are covered by the level (ii) family: real session pairs, results kept while later events arrive on the connection.",
     "level_note": "Trusted: coqc kernel; model tied to /repo by sampled differential runs (level (i) linkedBuffer pairs incl. the real Stream.ReleaseReadAndReuse; level (ii) real session pairs, fallback transport); sequential histories.",
 }
 
@@ -45,15 +45,16 @@ def check(run):
     feats, distinct, ops = base.digest(PROP, run, cases, "C08:")
     if cases:
         base.correspond(PROP, run, cases, run.tier)
-    held = sum(1 for c in cases for o in c["ops"] if o["k"] in ("RB", "PK") and o.get("n", 0) > 0)
+    held = sum(1 for c in cases for o in (c.get("ops") or []) if o["k"] in ("RB", "PK") and o.get("n", 0) > 0)
     run.coverage.update({
         "evaluations": len(cases), "distinct_nontrivial": distinct,
         "rule": "a case = an op history on the real linkedBuffer pair with other owners allocating/overwriting/freeing slots; every ReadBytes/Peek result is kept "
                 "and re-compared after each later op until ReleasePreviousRead/releasePreviousReadAndReserve/recycle; non-trivial = a read spanning slices, a fallback flush or a blocked read; distinct by (config, ops)",
         "samples": [base.short_case(c) for c in cases[:2]],
         "features": feats, "ops": ops, "zero_copy_results_tracked": held,
-        "total_ops": sum(len(c["ops"]) for c in cases),
-        "level_ii_histories": sum(1 for c in cases if c.get("mode") == "c08s"),
+        "total_ops": sum(len((c.get("ops") or [])) for c in cases),
+        "level_ii_histories": sum(1 for c in cases if c.get("mode") in ("c08s", "c08cb")),
+        "callback_mode_histories": sum(1 for c in cases if c.get("mode") == "c08cb"),
         "search_selftest_histories": len(st_cases),
         "level_ii_note": "real session pairs, every flush through the socket fallback, the reader keeps ReadBytes/Peek results of "
                          "fallback (heap) slices while later events arrive on the connection; model evaluated with cfg = []",
